@@ -25,7 +25,7 @@ class C06(Prop):
         return (
             "format_agp text of random assemblies (incl. zero/negative-length gaps, empty scaffolds, odd names), of the "
             "assembly derived from random FASTA files by index_fasta_file (the .agp cache), and the output of "
-            "asm-format (AGP and TPF input) run in process, and of assemblies streamed to FASTA with their AGP (gaps longer than the buffer); and the cache AGP left behind when the indexing run meets an I/O error at its k-th file operation (k = 0..39); judged by an independent AGP column checker against the "
+            "asm-format (AGP and TPF input) run in process, and of assemblies streamed to FASTA with their AGP (gaps longer than the buffer); the AGPs pretext-to-asm writes over longer files of the same names, object names with white space at an edge, and the cache AGP left behind when the indexing run meets an I/O error at its k-th file operation (k = 0..39); judged by an independent AGP column checker against the "
             "scaffold lengths. non-trivial = distinct assembly with >= 2 rows in some scaffold"
         )
 
@@ -61,11 +61,17 @@ class C06(Prop):
         for k in range(0, 40 if tier == "quick" else 120):
             layout = F.gen_fasta(rng, nrec=rng.choice([2, 3, 6]), maxlen=30)
             yield {"gen": "fault-cache", "kind": "fault", "layout": layout, "data": F.render(layout), "k": k}
+        # pretext-to-asm run again into a directory whose output files are longer than what it writes now
+        for multi in (True, False):
+            yield {"gen": "rerun-over-longer-files", "kind": "rerun", "multi": multi}
         for _ in range(10 if tier == "quick" else 150):
             which = rng.choice(["agp", "tpf"])
             a = T.gen_asm(rng, tpf_able=(which == "tpf"))
             for k, sc in enumerate(a["scaffolds"]):
                 sc["name"] += f".{k}"  # distinct object names
+                if rng.random() < 0.3:
+                    # white space at an edge of the name that only TAB-splitting keeps
+                    sc["name"] = rng.choice([" {}", "{}\x0b", "{}\x1f", "\x1c{}"]).format(sc["name"])
             yield {"gen": "asm-format/" + which, "kind": "cli", "fmt": which, "asm": a}
 
     def run_fault(self, case):
@@ -101,8 +107,33 @@ class C06(Prop):
         return {"status": status, "faulted": faulted, "text": agp.read_text() if agp.exists() else None,
                 "leftovers": sorted(p.name for p in root.iterdir() if p.name.endswith(".tmp"))}
 
+    def run_rerun(self, case):
+        import shutil
+
+        from .. import cli_util as C
+        from .. import core
+
+        root = core.BUILD / self.pid / "cli"
+        shutil.rmtree(root, ignore_errors=True)
+        fa, agp = C.write_inputs(root / "in", case["multi"])
+        out = root / "out"
+        out.mkdir(parents=True)
+        args = ["-a", fa, "-p", agp, "-o", out / "x.fa", "--no-write-log"]
+        r1 = C.run_cli(args)
+        first = {p.name: p.read_bytes() for p in out.iterdir() if p.is_file()}
+        for p in out.iterdir():
+            if p.is_file():
+                p.write_bytes(first[p.name] * 2 + b"tail\tof\tan\tolder\tlonger\tfile\n" * 50)
+        r2 = C.run_cli(args)
+        files = {p.name: p.read_bytes().decode("latin-1") for p in out.iterdir() if p.is_file()}
+        shutil.rmtree(root, ignore_errors=True)
+        return {"exit": [r1.exit_code, r2.exit_code], "files": files,
+                "first": {k_: v.decode("latin-1") for k_, v in first.items()}}
+
     def run_impl(self, case):
         k = case["kind"]
+        if k == "rerun":
+            return self.run_rerun(case)
         if k == "fault":
             return self.run_fault(case)
         if k == "format":
@@ -130,7 +161,7 @@ class C06(Prop):
 
     def term(self, case, obs):
         k = case["kind"]
-        if k == "fault":
+        if k in ("fault", "rerun"):
             return []
         if k == "format":
             return lambda names: f"CFormatAgp {T.asm_term(case['asm'], names)} {T.opt_text(obs['text'], names)}"
@@ -144,6 +175,31 @@ class C06(Prop):
 
     def oracle(self, case, obs):
         k = case["kind"]
+        if k == "rerun":
+            if obs["exit"] != [0, 0]:
+                return f"pretext-to-asm exited {obs['exit']}"
+            for name, text in obs["files"].items():
+                if not name.endswith(".agp"):
+                    continue
+                lengths = None
+                fa = obs["files"].get(name[:-4] + ".fa")
+                if fa is not None:
+                    lengths, cur = {}, None
+                    for ln in fa.split("\n"):
+                        if ln.startswith(">"):
+                            cur = ln[1:]
+                            lengths[cur] = 0
+                        elif cur is not None:
+                            lengths[cur] += len(ln)
+                try:
+                    w = T.check_agp_text(text, lengths)
+                except Exception as e:
+                    w = f"not AGP text ({type(e).__name__}: {e})"
+                if w:
+                    return f"{name}, written over a longer file of the same name: {w}"
+                if text != obs["first"].get(name):
+                    return f"{name} differs from what the same run writes into an empty directory"
+            return None
         if k == "fault":
             if obs["text"] is None:
                 return None
@@ -198,6 +254,8 @@ class C06(Prop):
         return None
 
     def key(self, case, obs):
+        if case["kind"] == "rerun":
+            return super().key(case, {"exit": obs["exit"]})
         if case["kind"] == "fault":
             return super().key(case, obs) if obs.get("faulted") else None
         a = obs.get("asm") if case["kind"] in ("fasta", "stream") else case.get("asm")
